@@ -503,6 +503,8 @@ def reference(line):
     if len(t) < 2 or len(t[0]) != 2:
         return None
     p = t[0]
+    if p[0] == "n":
+        return None      # Array<Node>: the reference-level Lean model is the only oracle (see LEVEL_NOTE)
     REFS = _refs()
     if t[1] == "reset":
         REFS[p] = Ref(p[0])
@@ -694,6 +696,38 @@ def exhaustive_cases(maxlen, types):
     return cases
 
 
+def gen_nested(rng, nops):
+    """Array<Node> with Node { int v; Array<Node> kids; }: arguments stored inside an element of the same array"""
+    lines = ["na reset", "na new 0"]
+    for _ in range(nops):
+        w = rng.random()
+        h = rng.randrange(3) if rng.random() < 0.8 else rng.randrange(NS)
+        j = rng.randrange(1000)
+        if w < 0.25:
+            lines.append("na app %d %d" % (h, rng.randrange(-3, 40)))
+        elif w < 0.50:
+            lines.append("na kapp %d %d %d" % (h, j, rng.randrange(-3, 40)))
+        elif w < 0.60:
+            lines.append("na apndk %d %d" % (h, j))
+        elif w < 0.70:
+            lines.append("na copyk %d %d" % (h, j))
+        elif w < 0.78:
+            lines.append("na asgk %d %d" % (h, j))
+        elif w < 0.84:
+            lines.append("na getk %d %d %d" % (rng.randrange(NS), h, j))
+        elif w < 0.89:
+            lines.append("na cp %d %d" % (rng.randrange(NS), h))
+        elif w < 0.94:
+            lines.append("na rem %d %d" % (h, j))
+        elif w < 0.97:
+            lines.append("na drop %d" % h)
+        else:
+            lines.append("na new %d" % h)
+    if rng.random() < 0.7:
+        lines += ["na drop %d" % i for i in range(NS)]
+    return lines
+
+
 def gen(rng, tier):
     cases = []
     quick = tier == "quick"
@@ -708,6 +742,8 @@ def gen(rng, tier):
     for i in range(nlarge):
         p = kinds[i % len(kinds)]
         cases.append(gen_case(rng, p[0], p[1], rng.randrange(60, 400), "large", exclusive=(i % 2 == 0)))
+    for i in range(250 if quick else 6000):
+        cases.append(gen_nested(rng, rng.randrange(3, 40)))
     cases += exhaustive_cases(3 if quick else 5, ["c"] if quick else ["c", "s"])
     return cases
 
@@ -715,8 +751,8 @@ def gen(rng, tier):
 EXHAUSTIVE = {"quick": "all sequences of length <= 3 over the 9-op alphabet %s on Array<Counted>" % ALPHABET,
               "thorough": "all sequences of length <= 5 over the 9-op alphabet %s on Array<Counted> and Array<String>" % ALPHABET}
 
-GROW = ("app", "ins", "appo", "inso", "insx", "push", "put", "apnd", "appp")
-MID = ("ins", "inso", "insx", "rem", "remone", "remif", "qget")
+GROW = ("app", "ins", "appo", "inso", "insx", "push", "put", "apnd", "appp", "kapp")
+MID = ("ins", "inso", "insx", "rem", "remone", "remif", "qget", "apndk", "copyk", "asgk")
 
 
 def nontrivial(case):
@@ -741,7 +777,7 @@ def distribution(cases):
             t = l.split()
             ops[t[1]] = ops.get(t[1], 0) + 1
             if t[1] == "reset":
-                ref = Ref(t[0][0])
+                ref = Ref(t[0][0]) if t[0][0] != "n" else None
                 by_prefix[t[0]] = by_prefix.get(t[0], 0) + 1
                 continue
             if ref is not None:
@@ -774,6 +810,14 @@ def _strip_caps(line):
 
 
 def oracle(case, impl, model, crash):
+    if case and case[0].startswith("n"):
+        if crash:
+            return True, "memory error / abnormal termination: %s" % crash
+        return True, "Array<Node> history: implementation differs from the reference-level model"
+    return _oracle_flat(case, impl, model, crash)
+
+
+def _oracle_flat(case, impl, model, crash):
     """judge a divergence on the implementation alone: replay the history on the python reference following the
     implementation's own skip decisions (the growth policy is not part of the property)"""
     if crash:
